@@ -44,10 +44,12 @@ def shape_decimal(item, ob):
             return Fraction(body) * (Fraction(10) ** int(ex) if ex else 1)
         except Exception: return None
     def replay(model):
-        t = text(model); v = py_value(t)
+        t = text(model)
+        if exp and abs(int(t.partition('e')[2])) > 400:      # never compute a huge power of ten here either
+            return {'program': f'try (rational("{t}") then type then str) catch e -> "err"', 'expect': {'not_panic': 1}, 'slow': True}
+        v = py_value(t)
         if v is None: return {'program': f'try rational("{t}") catch e -> "err"', 'expect': {'not_panic': 1}}
-        if exp and abs(int(t.partition('e')[2])) > 400: return {'program': f'try (rational("{t}") then type then str) catch e -> "err"', 'expect': {'not_panic': 1}, 'slow': True}
-        return {'program': f'rational("{t}")', 'expect': {'equals': 'OK ' + (f'{v.numerator}/{v.denominator}q')}}
+        return {'program': f'rational("{t}")', 'expect': {'equals': 'OK ' + repr_q(v)}}
     valid_syntax = (ni > 0 or (dot and nf > 0)) and (not dot or True)
     I, F = dval(ID), dval(FD)
     mant = z3.ToReal(I) + (z3.ToReal(F) / (10 ** nf) if nf else 0)
@@ -90,7 +92,7 @@ def shape_rational(item, ob):
         t = ''.join(chr(mval(model, c)) for c in chars); p, q = t.split('/')
         from fractions import Fraction
         if int(q) == 0: return {'program': f'try rational("{t}") catch e -> "err"', 'expect': {'equals': 'OK "err"'}}
-        v = Fraction(int(p), int(q)); return {'program': f'rational("{t}")', 'expect': {'equals': f'OK {v.numerator}/{v.denominator}q'}}
+        v = Fraction(int(p), int(q)); return {'program': f'rational("{t}")', 'expect': {'equals': 'OK ' + repr_q(v)}}
     for pc, kd, res, lg in E.explore(run):
         ob.paths += 1; name = f'parse_rational_exactly {"d" * n1}/{"d" * n2}'
         if kd == 'panic': ob.panic(name + ' panic-free', pc, res, replay=replay, cls='C16/parse_rational/panic'); continue
